@@ -99,6 +99,41 @@ theorem File.write_end [Inhabited α] (f : File α) (s : List α) (h : f.pos = f
     f.write s = ⟨f.data ++ s, f.pos + s.length⟩ := by
   simp [File.write, h]
 
+/-- two consecutive writes are one write of the concatenation (whatever the position: overwriting, extending) -/
+theorem File.write_write [Inhabited α] (f : File α) (a b : List α) : (f.write a).write b = f.write (a ++ b) := by
+  have hlen : (f.data.take f.pos ++ List.replicate (f.pos - f.data.length) default).length = f.pos := by
+    simp only [List.length_append, List.length_take, List.length_replicate]; omega
+  unfold File.write
+  simp only [File.mk.injEq]
+  refine ⟨?_, by simp only [List.length_append]; omega⟩
+  generalize hP : f.data.take f.pos ++ List.replicate (f.pos - f.data.length) default = P at hlen
+  have e1 : (P ++ a ++ f.data.drop (f.pos + a.length)).take (f.pos + a.length) = P ++ a := by
+    rw [List.take_append_of_le_length (by simp only [List.length_append]; omega)]
+    exact List.take_of_length_le (by simp only [List.length_append]; omega)
+  have e2 : (P ++ a ++ f.data.drop (f.pos + a.length)).drop (f.pos + a.length + b.length)
+      = f.data.drop (f.pos + (a ++ b).length) := by
+    rw [List.drop_append, List.drop_of_length_le (by simp only [List.length_append]; omega), List.drop_drop]
+    simp only [List.length_append, List.nil_append]
+    congr 1; omega
+  have e3 : f.pos + a.length - (P ++ a ++ f.data.drop (f.pos + a.length)).length = 0 := by
+    simp only [List.length_append]; omega
+  rw [e1, e2, e3]
+  simp [List.append_assoc]
 
+/-- `writelines`: the loop of writes is one write of the joined pieces (inside the data; an empty batch beyond
+    the end would differ only by `File.write`'s padding) -/
+theorem File.foldl_write [Inhabited α] (f : File α) (ss : List (List α)) (h : InRange f) :
+    ss.foldl File.write f = f.write ss.flatten := by
+  induction ss generalizing f with
+  | nil =>
+    unfold InRange at h
+    cases f with
+    | mk d p =>
+      simp only [List.foldl_nil, List.flatten_nil, File.write, List.append_nil, List.length_nil, Nat.add_zero] at h ⊢
+      rw [Nat.sub_eq_zero_of_le h]
+      simp
+  | cons a ss ih =>
+    simp only [List.foldl_cons, List.flatten_cons]
+    rw [ih _ (File.write_inRange f a h), File.write_write]
 
 end C18
